@@ -26,6 +26,7 @@ def run_mode(fmt, header, text, mode):
         for x in r.rows(): out.append(("E", x.location.line + 1, x.message[:25]) if isinstance(x, errors.DataError) else ("R", x))
     except errors.DataFormatError as e: stop = ("DataFormatError",)
     except errors.DataError as e: stop = ("E", e.location.line + 1, e.message[:25])
+    except Exception as e: stop = ("ESCAPED", type(e).__name__)
     return out, stop, (r.accepted_rows_count, r.rejected_rows_count)
 
 
@@ -62,6 +63,8 @@ def unit_modes_sweep():
             else:
                 if r != y[:first_err] or rstop != y[first_err]: return {"expected": "raise == prefix of yield %r then %r" % (y[:first_err], y[first_err]), "observed": (r, rstop)}
             if ystop != cstop: return {"expected": "same stop in yield and continue", "observed": (ystop, cstop)}
+            for st_ in (ystop, cstop, rstop):
+                if st_ and st_[0] == "ESCAPED": return {"expected": "rows, DataErrors or a DataFormatError", "observed": "%s escaped" % st_[1]}
             if fault_at is not None:
                 if ystop != ("DataFormatError",): return {"expected": "container fault stops reading with a DataFormatError in yield mode", "observed": ystop}
                 if first_err is None and rstop != ("DataFormatError",): return {"expected": "DataFormatError in raise mode", "observed": rstop}
